@@ -735,6 +735,13 @@ func (d *badgerNodeDB) NewBatch(oldRoot node.Root, version uint64, chunk bool) (
 		return nil, api.ErrMultipartInProgress
 	}
 
+	// Make sure that the version has not yet been finalized. Such a batch could never be committed,
+	// but it would be handed the sequence number of the finalized roots again, so whatever the
+	// underlying write batch flushes early because of its size would overwrite their nodes.
+	if lastFinalizedVersion, exists := d.meta.getLastFinalizedVersion(); exists && lastFinalizedVersion >= version {
+		return nil, api.ErrAlreadyFinalized
+	}
+
 	var (
 		readTxn   *badger.Txn
 		seqNo     uint16
